@@ -488,10 +488,8 @@ func (s *Session) Serve(h Handler) (err error) {
 	}()
 
 	for {
-		select {
-		case <-s.in.ctx.Done():
-			return s.in.ctx.Err()
-		default:
+		if e := s.inputErr(); e != nil {
+			return e
 		}
 		err := handleInputStream(s, h)
 		switch err {
@@ -502,6 +500,19 @@ func (s *Session) Serve(h Handler) (err error) {
 		default:
 			return s.sendError(err)
 		}
+	}
+}
+
+// inputErr returns the error of the input stream's context if it has ended (the
+// close deadline passed or the input stream was closed).
+func (s *Session) inputErr() error {
+	s.stateMutex.RLock()
+	defer s.stateMutex.RUnlock()
+	select {
+	case <-s.in.ctx.Done():
+		return s.in.ctx.Err()
+	default:
+		return nil
 	}
 }
 
@@ -946,8 +957,12 @@ func (s *Session) RemoteAddr() jid.JID {
 // as closed and any blocking calls to Serve will return an error.
 // This is normally called just before a call to Close.
 func (s *Session) SetCloseDeadline(t time.Time) error {
+	// Serve reads the context while this method replaces it, normally from
+	// another goroutine.
+	s.stateMutex.Lock()
 	oldCancel := s.in.cancel
 	s.in.ctx, s.in.cancel = context.WithDeadline(context.Background(), t)
+	s.stateMutex.Unlock()
 	if oldCancel != nil {
 		oldCancel()
 	}
